@@ -131,6 +131,8 @@ REVERTS = {   # fix commit -> (finding, property whose check must report its rev
     '99089b5': ('F26', 'C19'), 'baa994e': ('F28', 'C07'), '530f176': ('F29', 'C11'), '722a7e2': ('F30', 'C12'), '41d9a82': ('F31', 'C03'),
     'a2e88b6': ('F32', 'C08'), '3e5faa7': ('F33', 'C06'),
     'f9664fc': ('F35', 'C10'), '439e3c6': ('F36', 'C03'), 'aed9ae9': ('F37', 'C03'), '54f1b89': ('F38', 'C07'),
+    '96a8ff0': ('F39', 'C15'), 'f235e9e': ('F40', 'C10'), '679ca5a': ('F41', 'C03'), 'b0cf7b6': ('F42', 'C08'), 'a03eac2': ('F43', 'C02'),
+    '16410cd': ('F44', 'C15'), 'eaeb55f': ('F45', 'C13'),
 }
 
 
